@@ -864,36 +864,21 @@ func c05CancelWiring(c *Ctx, runAsync *ssa.Function) {
 	pairs := c05CtxCancelPairs(runAsync)
 	c.Check(pairs["runCtx"] == "runCancel" && pairs["instanceStartCtx"] == "instanceStartCancel", "O5.3", fk(runAsync)+":context-cancel-pairs", runAsync.Pos(),
 		fmt.Sprintf("handle wiring (ctx field -> cancel field) = %v; want runCtx->runCancel, instanceStartCtx->instanceStartCancel", pairs))
-	// provider and aggregator run under runCtx; instances start under instanceStartCtx, which is a child of runCtx
-	var wcs []*ssa.Call
-	EachInstr(runAsync, func(in ssa.Instruction) {
-		if cl, ok := in.(*ssa.Call); ok && MatchCC(&cl.Call, sWithCancel) {
-			wcs = append(wcs, cl)
-		}
-	})
-	okChild := false
-	if len(wcs) == 2 {
-		okChild = DerivesOnly(wcs[1].Call.Args[0], false, IsResultOf(wcs[0], 0))
-	}
+	// the provider runs under runCtx; instances start under instanceStartCtx, which is a child of runCtx
+	wcOf := withCancelByHandleField(runAsync)
+	runWC, startWC := wcOf["runCancel"], wcOf["instanceStartCancel"]
+	okChild := runWC != nil && startWC != nil && DerivesOnly(startWC.Call.Args[0], false, IsResultOf(runWC, 0))
 	c.Check(okChild, "O5.3", fk(runAsync)+":start-context-is-child-of-run-context", runAsync.Pos(), "instanceStartCtx must derive from runCtx")
 	for _, g := range runAsync.AnonFuncs {
 		EachInstr(g, func(in ssa.Instruction) {
 			cl, ok := in.(*ssa.Call)
-			if !ok {
+			if !ok || !MatchCC(&cl.Call, Spec{"./core", "Provider", "Run"}) {
 				return
 			}
-			var which string
-			switch {
-			case MatchCC(&cl.Call, Spec{"./core", "Provider", "Run"}):
-				which = "Provider.Run"
-			case MatchCC(&cl.Call, Spec{"./core", "Aggregator", "Run"}):
-				which = "Aggregator.Run"
-			default:
-				return
-			}
-			ok2 := len(wcs) >= 1 && DerivesOnly(cl.Call.Args[0], false, IsResultOf(wcs[0], 0))
-			c.Check(ok2, "O5.3", fk(runAsync)+":"+which+"-under-run-context", cl.Pos(), which+" must run under runCtx (cancelled only after all instances were awaited)")
+			ok2 := runWC != nil && DerivesOnly(cl.Call.Args[0], false, IsResultOf(runWC, 0))
+			c.Check(ok2, "O5.3", fk(runAsync)+":Provider.Run-under-run-context", cl.Pos(), "Provider.Run must run under runCtx (cancelled when all instances were awaited, or with the pool)")
 		})
 	}
+	aggregatorContextRule(c, "O5.3", runAsync)
 	_ = strings.Join
 }
